@@ -30,7 +30,9 @@ ASSUMPTIONS = [
     "the native Rust extension is absent in this sandbox, so every node is translated by GraphRecordsLayer (the path whose faithfulness the property is about)",
     "TaskRef resolution in args: lists, tuples and dict values, as the protocol docstring states",
 ]
-EXCLUDE = ("KF-layout-drift-over-shuffle", "KF-minmax-empty")
+from vf import exclusions as _ex
+
+EXCLUDE = _ex.RAISES
 
 
 def _norm(k):
